@@ -1658,3 +1658,60 @@ def list_reuse(ctx, pf, prop):
 
 extra_c04 = _chain(extra_c04, lambda ctx, pf: list_reuse(ctx, pf, "c04"))
 extra_c15 = _chain(extra_c15, lambda ctx, pf: list_reuse(ctx, pf, "c15"))
+
+
+# ------------------------------------------------------------------ session 3: the plot profile
+def profile_c03(ctx, pf):
+    """CellVariable.plotprofile(): coordinates = (first face, cell centres, last face) per axis; values = interior values, and at every face
+    ghost position the value AT the boundary face (average of ghost and inner cell), which for Dirichlet data is the configured value"""
+    n = 0
+    rng = random.Random(f"c03profile-{ctx.seed}")
+    SIDES = [("left", "right"), ("bottom", "top"), ("back", "front")]
+    for cname in gen.CLASSES:
+        d = gen.DIM[cname]
+        for rep in range(2):
+            fs = gen.mesh_case(rng, cname, nmax=4, nmin=2)
+            mesh = gen.build_mesh(pf, cname, fs)
+            dims = tuple(int(k) for k in mesh.dims)
+            L = {"cls": cname, "faces": [list(map(float, f)) for f in fs]}
+            try:
+                with np.errstate(all="ignore"):
+                    bc = pf.BoundaryConditions(mesh)
+                    dval = {}
+                    for a in range(d):
+                        for hi, s in enumerate(SIDES[a]):
+                            if rng.random() < 0.6 and not (gen.AXKIND[cname][a] == "rad" and hi == 0 and fs[a][0] == 0.0):
+                                dval[(a, hi)] = float(rng.randint(-3, 3)) + 0.5
+                                getattr(bc, s).fixedValue(dval[(a, hi)])
+                    v = pf.CellVariable(mesh, ival(rng, dims, 1, 5) + 0.25, bc)
+                    prof = v.plotprofile()
+                    vals = np.asarray(prof[-1], dtype=float)
+                    full = np.asarray(v._value, dtype=float)
+                    n += 1
+                    cen = [mesh.cellcenters._x, mesh.cellcenters._y, mesh.cellcenters._z]; fac = [mesh.facecenters._x, mesh.facecenters._y, mesh.facecenters._z]
+                    for a in range(d):
+                        want = np.hstack([fac[a][0], cen[a], fac[a][-1]])
+                        if np.ravel(prof[a]).shape != want.shape or relsc(np.ravel(prof[a]), want) > 1e-14:
+                            ctx.violation(f"c03:{cname}:profile-coords", f"{cname}: plotprofile coordinates of axis {a} are not (first face, cell centres, last face)", dict(L, axis=a)); raise StopIteration
+                    if vals.shape != full.shape:
+                        ctx.violation(f"c03:{cname}:profile-shape", f"{cname}: plotprofile values have shape {vals.shape}, the padded array has {full.shape}", L); raise StopIteration
+                    inner = tuple(slice(1, -1) for _ in range(d))
+                    if relsc(vals[inner], full[inner]) > 1e-14:
+                        ctx.violation(f"c03:{cname}:profile-interior", f"{cname}: plotprofile changes interior values", L); raise StopIteration
+                    for a in range(d):
+                        for hi in (0, 1):
+                            g = tuple((0 if not hi else -1) if b == a else slice(1, -1) for b in range(d))
+                            i_ = tuple((1 if not hi else -2) if b == a else slice(1, -1) for b in range(d))
+                            want = 0.5 * (full[g] + full[i_])
+                            if relsc(vals[g], want) > 1e-13:
+                                ctx.violation(f"c03:{cname}:profile-face", f"{cname}: plotprofile on the {SIDES[a][hi]} face is not the average of the stored ghost and inner values (rel {relsc(vals[g], want):.3g})", dict(L, side=SIDES[a][hi])); raise StopIteration
+                            if (a, hi) in dval and relsc(vals[g], np.full(np.shape(vals[g]), dval[(a, hi)])) > 1e-12:
+                                ctx.violation(f"c03:{cname}:profile-dirichlet", f"{cname}: plotprofile on the {SIDES[a][hi]} face does not report the Dirichlet value {dval[(a, hi)]}", dict(L, side=SIDES[a][hi])); raise StopIteration
+            except StopIteration:
+                pass
+            except Exception as ex:
+                ctx.violation(f"c03:{cname}:profile-raise", f"{cname}: plotprofile raised {type(ex).__name__}: {ex}", L)
+    return n
+
+
+extra_c03 = _chain(extra_c03, profile_c03)
